@@ -1,5 +1,5 @@
 /-
-  JSON round trip of the serde model (the development behind C20).  TO BE PROVED: every `sorry` below.
+  JSON round trip of the serde model (the development behind C20).
 -/
 import IppModel.Model.Json
 import IppModel.Spec.ToWire
@@ -12,11 +12,171 @@ open Gen Spec
 def mapsCanonical (gs : List Group) : Bool :=
   gs.all fun g => sortedB g.attrs && g.attrs.all fun p => collsSorted p.2
 
-theorem json_value_roundtrip (v : Value) (h : collsSorted v = true) : jsonToValue (valueToJson v) = some v := by
-  sorry
+namespace JsonRt
+
+theorem intToI32_i32ToInt (v : UInt32) : intToI32 (i32ToInt v) = some v := by
+  have hlt := v.toNat_lt
+  unfold i32ToInt intToI32
+  split
+  · rename_i h
+    rw [if_pos (by omega)]
+    simp
+  · rename_i h
+    rw [if_neg (by omega), if_pos (by omega)]
+    have : ((v.toNat : Int) - 4294967296 + 4294967296).toNat = v.toNat := by omega
+    rw [this]; simp
+
+theorem intToI8_i8ToInt (v : UInt8) : intToI8 (i8ToInt v) = some v := by
+  have hlt := v.toNat_lt
+  unfold i8ToInt intToI8
+  split
+  · rename_i h
+    rw [if_pos (by omega)]
+    simp
+  · rename_i h
+    rw [if_neg (by omega), if_pos (by omega)]
+    have : ((v.toNat : Int) - 256 + 256).toNat = v.toNat := by omega
+    rw [this]; simp
+
+theorem jnat_nat (bound n : Nat) (h : n < bound) : jnat bound (.num n) = some n := by
+  simp [jnat, h]
+
+theorem jnat_u8 (x : UInt8) : jnat 256 (.num x.toNat) = some x.toNat := jnat_nat _ _ x.toNat_lt
+theorem jnat_u16 (x : UInt16) : jnat 65536 (.num x.toNat) = some x.toNat := jnat_nat _ _ x.toNat_lt
+theorem jnat_u32 (x : UInt32) : jnat 4294967296 (.num x.toNat) = some x.toNat := jnat_nat _ _ x.toNat_lt
+
+theorem strKind_rt (k : StrKind) : strKindOfName (strKindName k) = some k := by cases k <;> decide
+
+theorem jsonToBytes_rt (d : Bytes) : jsonToBytes (bytesToJson d) = some d := by
+  induction d with
+  | nil => rfl
+  | cons b r ih => simp only [bytesToJson, jsonToBytes, jnat_u8, ih, UInt8.ofNat_toNat]
+
+theorem jv_array (l : List Json) : jsonToValue (tag1 J.Array (.arr l)) = (jsonToValues l).map .array := by
+  simp +decide only [tag1, jsonToValue, if_true, if_false]
+
+theorem jv_coll (l) : jsonToValue (tag1 J.Collection (.obj l)) = (jsonToMembers l).map (fun ms => .coll (sinsertAll ms [])) := by
+  simp +decide only [tag1, jsonToValue, if_true, if_false]
+
+theorem jv_str (k s) : jsonToValue (tag1 (strKindName k) (.str s)) = some (.str k s) := by
+  cases k <;> simp +decide only [tag1, jsonToValue, strKindName, if_false] <;>
+    first
+    | rw [show J.OctetString = strKindName .octetString from rfl, strKind_rt]
+    | rw [show J.TextWithoutLanguage = strKindName .textWithoutLanguage from rfl, strKind_rt]
+    | rw [show J.NameWithoutLanguage = strKindName .nameWithoutLanguage from rfl, strKind_rt]
+    | rw [show J.Charset = strKindName .charset from rfl, strKind_rt]
+    | rw [show J.NaturalLanguage = strKindName .naturalLanguage from rfl, strKind_rt]
+    | rw [show J.Uri = strKindName .uri from rfl, strKind_rt]
+    | rw [show J.UriScheme = strKindName .uriScheme from rfl, strKind_rt]
+    | rw [show J.Keyword = strKindName .keyword from rfl, strKind_rt]
+    | rw [show J.MimeMediaType = strKindName .mimeMediaType from rfl, strKind_rt]
+    | rw [show J.MemberAttrName = strKindName .memberAttrName from rfl, strKind_rt]
+
+theorem jv_int (k v) : jsonToValue (valueToJson (.int k v)) = some (.int k v) := by
+  cases k <;> simp +decide only [valueToJson, tag1, jsonToValue, if_true, if_false, intToI32_i32ToInt, Option.map]
+
+theorem jv_bool (b) : jsonToValue (valueToJson (.bool b)) = some (.bool b) := by
+  simp +decide only [valueToJson, tag1, jsonToValue, if_true, if_false]
+
+theorem jv_lang (k l t) : jsonToValue (valueToJson (.lang k l t)) = some (.lang k l t) := by
+  cases k <;> simp +decide only [valueToJson, tag1, jsonToValue, if_true, if_false, jget, Option.bind, jstr]
+
+theorem jv_range (lo hi) : jsonToValue (valueToJson (.range lo hi)) = some (.range lo hi) := by
+  simp +decide only [valueToJson, tag1, jsonToValue, if_true, if_false, jget, intToI32_i32ToInt]
+
+theorem jv_resolution (c f u) : jsonToValue (valueToJson (.resolution c f u)) = some (.resolution c f u) := by
+  simp +decide only [valueToJson, tag1, jsonToValue, if_true, if_false, jget, intToI32_i32ToInt, intToI8_i8ToInt]
+
+theorem jv_noValue : jsonToValue (valueToJson .noValue) = some .noValue := by
+  simp +decide only [valueToJson, jsonToValue, if_true]
+
+theorem jv_other (t d) : jsonToValue (valueToJson (.other t d)) = some (.other t d) := by
+  simp +decide only [valueToJson, tag1, jsonToValue, if_true, if_false, jget, Option.bind, jnat_u8, jsonToBytes_rt,
+    Option.map, UInt8.ofNat_toNat]
+
+theorem jv_dateTime (y mo d h mi s ds dir uh um) :
+    jsonToValue (valueToJson (.dateTime y mo d h mi s ds dir uh um)) = some (.dateTime y mo d h mi s ds dir uh um) := by
+  simp +decide only [valueToJson, tag1, jsonToValue, if_true, if_false, jget, Option.bind, jnat_u8, jnat_u16,
+    UInt8.ofNat_toNat, UInt16.ofNat_toNat]
+
+
+
+mutual
+theorem rt_value : (v : Value) → collsSorted v = true → jsonToValue (valueToJson v) = some v
+  | .int k v, _ => jv_int k v
+  | .bool b, _ => jv_bool b
+  | .str k s, _ => by rw [valueToJson]; exact jv_str k s
+  | .lang k l t, _ => jv_lang k l t
+  | .range lo hi, _ => jv_range lo hi
+  | .dateTime y mo d h mi s ds dir uh um, _ => jv_dateTime y mo d h mi s ds dir uh um
+  | .resolution c f u, _ => jv_resolution c f u
+  | .noValue, _ => jv_noValue
+  | .other t d, _ => jv_other t d
+  | .array vs, h => by
+    rw [collsSorted] at h
+    rw [valueToJson, jv_array, rt_values vs h]; rfl
+  | .coll ms, h => by
+    rw [collsSorted, Bool.and_eq_true] at h
+    rw [valueToJson, jv_coll, rt_members ms h.2]
+    simp only [Option.map, sinsertAll_self h.1]
+theorem rt_values : (vs : List Value) → collsSortedL vs = true → jsonToValues (valuesToJson vs) = some vs
+  | [], _ => rfl
+  | v :: vs, h => by
+    rw [collsSortedL, Bool.and_eq_true] at h
+    simp only [valuesToJson, jsonToValues, rt_value v h.1, rt_values vs h.2]
+theorem rt_members : (ms : List (Bytes × Value)) → collsSortedM ms = true → jsonToMembers (membersToJson ms) = some ms
+  | [], _ => rfl
+  | (k, v) :: ms, h => by
+    rw [collsSortedM, Bool.and_eq_true] at h
+    simp only [membersToJson, jsonToMembers, rt_value v h.1, rt_members ms h.2]
+end
+
+theorem jsonToAttrs_rt (as : List (Bytes × Value)) (h : as.all (fun p => collsSorted p.2) = true) :
+    jsonToAttrs (attrsToJson as) = some (as.map fun p => (p.1, (p.1, p.2))) := by
+  induction as with
+  | nil => rfl
+  | cons p r ih =>
+    obtain ⟨n, v⟩ := p
+    rw [List.all_cons, Bool.and_eq_true] at h
+    simp +decide only [attrsToJson, jsonToAttrs, jget, if_true, if_false, Option.bind, jstr, rt_value v h.1, ih h.2,
+      List.map_cons]
+
+theorem map_unpair (attrs : List (Bytes × Value)) :
+    ((attrs.map fun p => (p.1, (p.1, p.2))).map fun p => (p.1, p.2.2)) = attrs := by
+  induction attrs with
+  | nil => rfl
+  | cons p r ih => rw [List.map_cons, List.map_cons, ih]
+
+theorem delim_rt (t : DelimiterTag) : DelimiterTag.all.find? (fun d => d.ident == t.ident) = some t := by
+  cases t <;> decide
+
+theorem jsonToGroup_rt (g : Group) (hs : sortedB g.attrs = true) (hc : g.attrs.all (fun p => collsSorted p.2) = true) :
+    jsonToGroup (groupToJson g) = some g := by
+  obtain ⟨tag, attrs⟩ := g
+  simp only at hs hc
+  have hall : (attrs.map fun p => (p.1, (p.1, p.2))).all (fun p => p.1 == p.2.1) = true := by
+    simp [List.all_map]
+  have hmap : ((attrs.map fun p => (p.1, (p.1, p.2))).map fun p => (p.1, p.2.2)) = attrs := by
+    exact map_unpair attrs
+  simp +decide only [groupToJson, jsonToGroup, jget, if_true, if_false, Option.bind, jstr, delim_rt,
+    jsonToAttrs_rt attrs hc, hall, hmap, sinsertAll_self hs]
+
+theorem jsonToGroups_rt (gs : List Group) (hc : mapsCanonical gs = true) :
+    jsonToGroups (groupsToJson gs) = some gs := by
+  induction gs with
+  | nil => rfl
+  | cons g r ih =>
+    rw [mapsCanonical, List.all_cons, Bool.and_eq_true, Bool.and_eq_true] at hc
+    simp only [groupsToJson, jsonToGroups, jsonToGroup_rt g hc.1.1 hc.1.2, ih hc.2]
+
+end JsonRt
+
+theorem json_value_roundtrip (v : Value) (h : collsSorted v = true) : jsonToValue (valueToJson v) = some v :=
+  JsonRt.rt_value v h
 
 theorem json_msg_roundtrip (h : Header) (gs : List Group) (hc : mapsCanonical gs = true) :
     jsonToMsg (msgToJson h gs) = some (h, gs) := by
-  sorry
+  simp +decide only [msgToJson, jsonToMsg, jget, if_true, if_false, Option.bind, JsonRt.jnat_u16, JsonRt.jnat_u32,
+    JsonRt.jsonToGroups_rt gs hc, Option.map, UInt16.ofNat_toNat, UInt32.ofNat_toNat]
 
 end Ipp
